@@ -274,6 +274,18 @@ def run(ck):
             ck.violation(f"the compiler panics on an ill-typed program instead of reporting a type error: {rule}",
                          {"program": s, "rule": rule, "rust": r[:200]}, key=known_key(rule))
     n_mut = mutation_pass(ck, base, quick) if ck.model_ok else 0
+    if ck.model_ok:
+        # the model of check.rs (Check/Infer.v) against the real checker, on the well-typed base programs, on the
+        # rule-breaking edits (both must reject) and on random mutants (either verdict, but the same)
+        import checktie
+        tie = [("base%d" % i, s) for i, s in enumerate(base)]
+        es = [(r, s) for r, s, _ in edits]
+        tie += [("edit:" + r, s) for r, s in (rng.sample(es, min(len(es), 500)) if quick else rng.sample(es, min(len(es), 8000)))]
+        for src in base[:30 if quick else 300]:
+            tie += [("mutant:" + k, t) for k, t in mutants(rng, src, 6 if quick else 20)]
+        cnt = checktie.check_tie_pass(ck, tie, "c17")
+        ck.obligation("checker-model tie: at least 300 programs are compared (same typed program, or rejected by both)",
+                      cnt.get("accepted: same typed program", 0) + cnt.get("rejected by both", 0) >= 300, str(cnt))
     ck.coverage.update({
         "evaluations": len(edits) + n_mut, "distinct_nontrivial": len(set(s for _, s, _ in edits)) + n_mut,
         "rule": "well-typed, fully annotated generated programs (accepted by the real checker) x rule-breaking edits: a "
